@@ -137,6 +137,21 @@ def phi(name, n):
     return ast.Name(id='%s@phi%d' % (name, n), ctx=ast.Load())
 
 
+def is_boolean_expr(e):
+    """an expression whose value can only be True / False"""
+    if isinstance(e, ast.Constant):
+        return isinstance(e.value, bool)
+    if isinstance(e, ast.Compare):
+        return True
+    if isinstance(e, ast.UnaryOp) and isinstance(e.op, ast.Not):
+        return True
+    if isinstance(e, ast.BoolOp):
+        return all(is_boolean_expr(v) for v in e.values)
+    if isinstance(e, ast.Call) and isinstance(e.func, ast.Name) and e.func.id in ('bool', 'isinstance', 'callable', 'hasattr', 'issubclass'):
+        return True
+    return False
+
+
 def expand_star_dict(kws):
     """f(**{'a': x, 'b': y}) is f(a=x, b=y)"""
     out = []
@@ -402,10 +417,30 @@ class Walker:
                 for tt, vv in zip(t.elts, v.elts):
                     self.assign(tt, vv, st, d, node)
             else:
-                for i, tt in enumerate(t.elts):
-                    if isinstance(tt, ast.Starred):
-                        self.assign(tt.value, ast.Subscript(value=v, slice=ast.Slice(lower=ast.Constant(value=i)), ctx=ast.Load()), st, d, node)
+                stars = [i for i, tt in enumerate(t.elts) if isinstance(tt, ast.Starred)]
+                literal = isinstance(v, (ast.Tuple, ast.List)) and not any(isinstance(x, ast.Starred) for x in v.elts)
+                if len(stars) == 1:
+                    # a, *rest, z = v
+                    k = stars[0]
+                    after = len(t.elts) - k - 1
+                    if literal and len(v.elts) >= len(t.elts) - 1:
+                        n = len(v.elts)
+                        for tt, vv in zip(t.elts[:k], v.elts[:k]):
+                            self.assign(tt, vv, st, d, node)
+                        self.assign(t.elts[k].value, ast.List(elts=list(v.elts[k:n - after]), ctx=ast.Load()), st, d, node)
+                        for tt, vv in zip(t.elts[k + 1:], v.elts[n - after:]):
+                            self.assign(tt, vv, st, d, node)
                     else:
+                        for i, tt in enumerate(t.elts[:k]):
+                            self.assign(tt, ast.Subscript(value=v, slice=ast.Constant(value=i), ctx=ast.Load()), st, d, node)
+                        hi = ast.Constant(value=-after) if after else None
+                        self.assign(t.elts[k].value, ast.Subscript(value=v, slice=ast.Slice(lower=ast.Constant(value=k) if k else None, upper=hi), ctx=ast.Load()), st, d, node)
+                        for j, tt in enumerate(t.elts[k + 1:]):
+                            self.assign(tt, ast.Subscript(value=v, slice=ast.Constant(value=j - after), ctx=ast.Load()), st, d, node)
+                else:
+                    for i, tt in enumerate(t.elts):
+                        if isinstance(tt, ast.Starred):
+                            raise Undecided('two starred targets (line %d)' % node.lineno)
                         self.assign(tt, ast.Subscript(value=v, slice=ast.Constant(value=i), ctx=ast.Load()), st, d, node)
         elif isinstance(t, ast.Attribute):
             obj = self.ev(t.value, st, d)
@@ -898,6 +933,19 @@ class _Ev:
         k = canon(new)
         if k in self.st.heap:
             return copy.deepcopy(self.st.heap[k])
+        # a literal table indexed on the spot: {k1: a, k2: b}[key]
+        d, key = new.value, new.slice
+        if isinstance(d, ast.Dict) and d.keys and all(isinstance(x, ast.Constant) for x in d.keys):
+            ks = [x.value for x in d.keys]
+            if isinstance(key, ast.Constant):
+                hit = [v for x, v in zip(ks, d.values) if x == key.value and type(x) is type(key.value)]
+                if hit:
+                    return hit[-1]
+            elif len(ks) == 2 and set(map(repr, ks)) == {'True', 'False'} and not isinstance(key, ast.Slice):
+                byk = dict(zip(ks, d.values))
+                # (an index that is not a bool would be a KeyError: the conditional form assumes it is)
+                if is_boolean_expr(key):
+                    return ast.IfExp(test=key, body=byk[True], orelse=byk[False])
         return new
 
     def v_Slice(self, e, cond):
